@@ -12,7 +12,7 @@ EXTENDS SelEnum, Restrictions, TLC
 
 CONSTANT Depth3
 
-All == Leaves \o Depth2 \o (IF Depth3 THEN Depth3Seq ELSE <<>>)
+All == Leaves \o SameLabelSeq \o Depth2 \o (IF Depth3 THEN Depth3Seq ELSE <<>>)
 Keys == { KeySeq[i] : i \in DOMAIN KeySeq }
 Vals == { ValSeq[i] : i \in DOMAIN ValSeq }
 CTab == [x |-> <<"x">>, xy |-> <<"x", "y">>]
